@@ -236,7 +236,8 @@ def fcn_expected(agent, market, z):
     C = (1.0 / max(tw, 1)) * math.log(p / market.get_market_price(t - tw))
     N = agent.noise_scale * z
     w = agent.fundamental_weight + agent.chart_weight + agent.noise_weight
-    r = (agent.fundamental_weight * F + agent.chart_weight * C + agent.noise_weight * N) / w
+    sign = 1 if getattr(agent, "is_chart_following", True) else -1
+    r = (agent.fundamental_weight * F + agent.chart_weight * C * sign + agent.noise_weight * N) / w
     return p * math.exp(r * agent.time_window_size)
 
 
@@ -321,6 +322,9 @@ def eval_fcn(res, world, rng, share):
     except Exception as e:  # noqa
         res.violation("setup", "admissible-agent-settings-refused", {"class": name, "settings": st, "exc": repr(e)})
         return
+    if rng.random() < 0.15:
+        a.is_chart_following = False     # contrarian mode (public attribute, e.g. set by a user subclass)
+        res.count("class/fcn_contrarian")
     if a.fundamental_weight + a.chart_weight + a.noise_weight <= 0:
         res.count("fcn_zero_weight_sum(not admissible)")
         return
